@@ -29,7 +29,13 @@ ShapesP == {<<Fld(IdA, TRUE, "int"), Fld(IdB, FALSE, "str"), Fld(IdP, r3, "int")
 \* an output-only field b_ between two constructor parameters, and after them
 ShapesG == {<<Fld(IdA, TRUE, "int"), FldD(IdB, FALSE, "str", "out"), Fld(IdC, r3, "int")>> : r3 \in BOOLEAN}
            \cup {<<Fld(IdA, TRUE, "int"), Fld(IdC, r3, "int"), FldD(IdB, FALSE, "str", "out")>> : r3 \in BOOLEAN}
+\* a field whose dumped form is not the value itself ("dec": Decimal <-> str), with and without a default: "equals its default" is
+\* a statement about the field's VALUE, not about its representation
+ShapesE == {<<Fld(IdA, TRUE, "int"), Fld(IdB, r2, "dec"), Fld(IdC, r3, "int")>> : r2 \in BOOLEAN, r3 \in BOOLEAN}
+           \* ... and a defaulted field that holds a mutable container (its default comes from a factory)
+           \cup {<<Fld(IdA, TRUE, "int"), Fld(IdB, FALSE, "str"), Fld(IdC, FALSE, "any")>>}
 Shapes == CASE Slice = "C" -> Shapes4
+            [] Slice = "E" -> Shapes3 \cup ShapesE
             [] Slice = "G" -> ShapesG
             [] Slice = "B" -> Shapes3 \cup ShapesP
             [] OTHER -> Shapes3
@@ -151,7 +157,7 @@ Objects == {[i \in 1..Len(shape) |-> IF shape[i].dir = "out" THEN DerivedV(i)
 \* ... each of them with one defaulted field holding a falsy value that is not the default ("equal to default" is not "falsy")
 FalsyObjects == {[o EXCEPT ![i] = FalsyV(i)] : o \in Objects, i \in {j \in Optional : shape[j].hasdfl}}
 \* ... and each of them with one typed field holding a value its dumper refuses
-BadObjects == {[o EXCEPT ![i] = BadV(i)] : o \in Objects, i \in {j \in 1..Len(shape) : shape[j].ty # "any" /\ shape[j].dir = "io"}}
+BadObjects == {[o EXCEPT ![i] = BadV(i)] : o \in Objects, i \in {j \in 1..Len(shape) : shape[j].ty \notin {"any", "dec"} /\ shape[j].dir = "io"}}
 Dumps == {[obj |-> o, fails |-> DumpFails(Sch, shape, o), out |-> DumpModel(Sch, shape, o)] : o \in Objects \cup FalsyObjects \cup BadObjects}
 
 (* ------------------------------ model-level properties -------------------------------- *)
